@@ -48,9 +48,13 @@ class ConstEval(Interp):
             if rd.get('kind') == 'EnumConstantDecl' and rd.get('id') in self.enums:
                 info = width_of_type(dtype(n0)) or (32, True)
                 return const_bv(self.enums[rd['id']] & ((1 << info[0]) - 1), info[0], info[1])
-        if n0.get('kind') == 'CXXOperatorCallExpr':
-            # enum class comparison / bit operators are builtin; overloaded ones are opaque
-            pass
+        if n0.get('kind') == 'CallExpr' and call_name(n0) in ('max', 'min', 'lowest') and not call_args(n0):
+            # std::numeric_limits<T>::max()/min(): the value is determined by the (integral) result type
+            info = width_of_type(dtype(n0))
+            if info:
+                w, sg = info
+                v = ((1 << (w - 1)) - 1 if sg else (1 << w) - 1) if call_name(n0) == 'max' else (-(1 << (w - 1)) if sg else 0)
+                return const_bv(v & ((1 << w) - 1), w, sg)
         return super().eval(n, env, depth)
 
 
